@@ -58,6 +58,9 @@ def scenarios(res):
         rng = vlib.rng_for(res.seed, PID, i)
         scs.append(storelib.gen_random(rng, sid))
         sid += 1
+    for i in range(40 if res.tier == "quick" else 600):
+        scs.append(storelib.gen_paged_scan(vlib.rng_for(res.seed, PID, "paged", i), sid))
+        sid += 1
     return scs, ncorpus, len(ex), nrand
 
 
